@@ -357,12 +357,15 @@ def run_children(specs, parallel=6):
             conn.close()
         except Exception:
             pass
-        proc.join(10 if status[0] == 'ok' else 1)
-        try:
-            os.killpg(proc.pid, signal.SIGKILL)
-        except (ProcessLookupError, PermissionError):
-            pass
-        proc.join(5)
+        proc.join(10 if status[0] == 'ok' else 0.5)
+        # a child that returned normally has already terminated its (daemonic) pool workers at exit; the group is only
+        # killed while the child's pid is still ours (alive) or after a crash that may have orphaned workers
+        if proc.is_alive() or proc.exitcode != 0:
+            try:
+                os.killpg(proc.pid, signal.SIGKILL)
+            except (ProcessLookupError, PermissionError):
+                pass
+            proc.join(5)
 
     while pending or running:
         while pending and sum(s[4] for s in running.values()) < parallel:
